@@ -133,6 +133,7 @@ pub const RUN_WALL_LIMIT_SECS: u64 = 1200;
 /// One op that keeps the thread busy this long is reported as not returning (ordinary ops take
 /// milliseconds, the heaviest seen a few seconds).
 pub const OP_WALL_LIMIT_SECS: u64 = 180;
+pub const RSS_LIMIT_BYTES: u64 = 6 << 30;
 /// Current limit (lowered while minimising: a candidate that does not finish is just rejected).
 pub static OP_LIMIT: std::sync::atomic::AtomicU64 = std::sync::atomic::AtomicU64::new(OP_WALL_LIMIT_SECS);
 
@@ -232,8 +233,38 @@ pub fn run_once(cfg: &RunCfg, ops: &[Op], base: &str) -> Outcome {
 	CURRENT_OP.store(usize::MAX, Ordering::Relaxed);
 	let mut op_seen = usize::MAX;
 	let mut op_start = std::time::Instant::now();
+	let mut last_rss_check = std::time::Instant::now();
 	while !h.is_finished() {
 		let cur = CURRENT_OP.load(Ordering::Relaxed);
+		// memory guard: a call that allocates without bound is reported before the machine runs
+		// out of memory (no run of the generator needs more than a few hundred MiB)
+		if last_rss_check.elapsed().as_millis() >= 500 {
+			last_rss_check = std::time::Instant::now();
+			let rss_pages: u64 = std::fs::read_to_string("/proc/self/statm")
+				.ok()
+				.and_then(|s| s.split_whitespace().nth(1).and_then(|x| x.parse().ok()))
+				.unwrap_or(0);
+			if rss_pages * 4096 > RSS_LIMIT_BYTES && cur != usize::MAX {
+				let deferred = exec::DEFERRAL_SEEN.load(Ordering::SeqCst);
+				return Outcome {
+					result: RunResult {
+						violations: vec![Violation {
+							prop: if deferred { "C11".to_string() } else { crash_prop_for(&cfg.scenario).to_string() },
+							class: if deferred { "after-deferral:no-return".to_string() } else { "no-return".to_string() },
+							detail: format!("the call of op {cur} (or the final reopen after it) keeps allocating: resident memory above {} GiB", RSS_LIMIT_BYTES >> 30),
+							op_index: cur,
+						}],
+						stats: Default::default(),
+						fingerprint: 0,
+						counters: Default::default(),
+						ops_executed: 0,
+					},
+					panicked: None,
+					hung: false,
+					blocked: true,
+				}
+			}
+		}
 		if cur != op_seen {
 			op_seen = cur;
 			op_start = std::time::Instant::now();
